@@ -396,3 +396,56 @@ P("C20", ["R08", "R14", "R09", "R10", "R12", "R23", "R13c", "R36", "R46", "R47",
    "is not mode-derived): outside the property's quantifier, noted"], [])
 
 NOT_APPLICABLE = {}
+
+
+# ---------------------------------------------------------------------------
+# Dependency-based attribution.
+#
+# A property about computed values (instants, dates, orderings, texts) is
+# stated for every input, so a defect in any function its operations call -
+# the normaliser, a length helper, a representation converter, the
+# comparison keys, a mode-dependent cache - breaks it as well, whichever
+# property that function is "anchored" under.  For the properties below the
+# obligations of the CORE rules (rules about that shared machinery) whose
+# construct lies in a function reachable, in the resolved call graph, from
+# the property's entry points are evaluated for the property too.  Entry
+# points are the operations the property's anchors name (by function, not by
+# line, because line numbers moved with the fix commits).
+CORE_RULES = ("R04", "R05", "R06", "R07", "R08", "R09", "R10", "R11", "R12",
+              "R13ab", "R13c", "R14", "R15", "R16", "R17", "R22", "R34",
+              "R36", "R39", "R41", "R43", "R47", "R49", "R50")
+
+ENTRY_POINTS = {
+    "C01": ["data.TimePoint.__add__", "data.TimePoint.__radd__"],
+    "C02": ["data.TimePoint._cmp", "data.TimePoint.__hash__"],
+    "C03": ["data.TimePoint.get_calendar_date",
+            "data.TimePoint.get_ordinal_date", "data.TimePoint.get_week_date",
+            "data.TimePoint.to_calendar_date",
+            "data.TimePoint.to_ordinal_date", "data.TimePoint.to_week_date"],
+    "C04": ["data.TimePoint.__sub__"],
+    "C05": ["data.TimePoint.add_months", "data.TimePoint.__add__"],
+    "C06": ["data.TimePoint.to_time_zone", "data.TimePoint.to_utc",
+            "data.TimePoint.to_local_time_zone",
+            "dumpers.TimePointDumper._dump_expression_with_properties"],
+    "C08": ["data.TimePoint.__str__", "dumpers.TimePointDumper.dump",
+            "parsers.TimePointParser.parse"],
+    "C09": ["data.TimePoint.__init__", "data.TimePoint._check_bounds",
+            "parsers.TimePointParser.parse"],
+    "C12": ["data.TimeRecurrence.__init__", "data.TimeRecurrence.__iter__"],
+    "C13": ["data.TimeRecurrence.get_is_valid",
+            "data.TimeRecurrence.get_first_after",
+            "data.TimeRecurrence.__getitem__", "data.TimeRecurrence.get_next",
+            "data.TimeRecurrence.get_prev"],
+    "C14": ["data.TimeRecurrence.__add__", "data.TimeRecurrence.__sub__",
+            "data.TimeRecurrence.__eq__", "data.TimeRecurrence.__hash__",
+            "data.TimeRecurrence.__str__",
+            "parsers.TimeRecurrenceParser.parse"],
+    "C17": ["dumpers.TimePointDumper.strftime",
+            "parsers.TimePointParser.strptime"],
+    "C18": ["data.TimePoint.seconds_since_unix_epoch",
+            "data.get_timepoint_from_seconds_since_unix_epoch",
+            "data.TimePoint.to_local_time_zone",
+            "timezone.get_local_time_zone"],
+    "C20": ["data.TimePoint.add_truncated", "data.TimePoint.__add__"],
+}
+
